@@ -200,6 +200,25 @@ fn wal_body(h: &str) {
     }
 }
 
+/// multilabel-reopen <n>: create a node with n labels, compact (checkpoint), close, reopen, compare labels(n).
+fn multilabel_reopen(n: &str) {
+    let n: usize = n.parse().unwrap_or(2);
+    let labels: String = (0..n).map(|i| format!(":L{i}")).collect();
+    let d = tempfile::tempdir().unwrap();
+    let p = d.path().join("g");
+    let before;
+    {
+        let db = Db::open(&p).unwrap();
+        w(&db, &format!("CREATE ({labels} {{x:1}})")).unwrap();
+        before = q(&db, "MATCH (n) RETURN size(labels(n)) AS c");
+        db.compact().unwrap();
+        db.close().unwrap();
+    }
+    let db = Db::open(&p).unwrap();
+    let after = q(&db, "MATCH (n) RETURN size(labels(n)) AS c");
+    report("multilabel-reopen", before != after, format!("label count before {:?}, after compact+reopen {:?}", before, after));
+}
+
 /// query <cypher>: prints rows (used by several E2 replays that only need one read query on an empty db).
 fn query(cy: &str) {
     let d = tempfile::tempdir().unwrap();
@@ -218,6 +237,7 @@ fn main() {
         "id-collision" => id_collision(&arg(2)),
         "pv-decode" => pv_decode(&arg(2)),
         "wal-body" => wal_body(&arg(2)),
+        "multilabel-reopen" => multilabel_reopen(&arg(2)),
         "query" => query(&arg(2)),
         _ => {
             eprintln!("unknown witness");
